@@ -41,6 +41,9 @@ type Case struct {
 	UnlimMs    int  `json:"unlimited_ms"` // >0: the paced profile is combined with an unlimited part of this length (before it if UnlimFirst)
 	UnlimFirst bool `json:"unlimited_first,omitempty"`
 	JitterMs   int  `json:"jitter_ms"`
+	// PerInstance: the pool is configured with rps-per-instance (the engine asks the factory once
+	// per instance); discard_overflow applies to it in the same way
+	PerInstance bool `json:"rps_per_instance,omitempty"`
 }
 
 const window = 2 * time.Second
@@ -161,7 +164,7 @@ func runCase(res *vkit.Result, c Case) {
 	eng := engine.New(vkit.NopLog(), m, engine.Config{Pools: []engine.InstancePoolConfig{{
 		ID: "p", Provider: prov, Aggregator: aggr, NewGun: plan.NewGun,
 		NewRPSSchedule:  func() (core.Schedule, error) { return rec, nil },
-		StartupSchedule: schedule.NewOnce(int64(c.Instances)), DiscardOverflow: c.Discard,
+		StartupSchedule: schedule.NewOnce(int64(c.Instances)), DiscardOverflow: c.Discard, RPSPerInstance: c.PerInstance,
 	}}})
 	t0 := time.Now()
 	done := make(chan error, 1)
@@ -218,6 +221,8 @@ func base() []Case {
 		// sustained slow target: lateness grows 0.4 s per shot (separates a fresh from a stale clock)
 		{Name: "sustained-slow", Instances: 1, From: 5, DurMs: 6000, Discard: true, ShotMs: 600, StallAt: -1},
 		{Name: "sustained-slow", Instances: 2, From: 10, DurMs: 5000, Discard: true, ShotMs: 700, StallAt: -1},
+		{Name: "one-stall", Instances: 1, From: 20, DurMs: 4000, Discard: true, ShotMs: 1, StallAt: 4, StallMs: 2600, PerInstance: true},
+		{Name: "sustained-slow", Instances: 2, From: 10, DurMs: 5000, Discard: true, ShotMs: 700, StallAt: -1, PerInstance: true},
 		// slower than the interval but never 2 s behind: nothing may be discarded
 		{Name: "slow-within-window", Instances: 1, From: 10, DurMs: 1500, Discard: true, ShotMs: 150, StallAt: -1},
 		{Name: "slow-within-window", Instances: 2, From: 20, DurMs: 2000, Discard: true, ShotMs: 140, StallAt: -1},
@@ -247,6 +252,7 @@ func gen(rng *rand.Rand) Case {
 		c.Line = true
 		c.To = float64(5 + rng.Intn(46))
 	}
+	c.PerInstance = rng.Intn(3) == 0
 	switch rng.Intn(6) {
 	case 5:
 		c.Name = "stall-then-future"
